@@ -78,10 +78,19 @@ def r1_gate_chain(ctx):
     # (f) MelPoW
     pw = [(bi, e) for bi, e in calls if q.is_call(e, "proof_is_tip910")]
     gate("melpow", pw, V(1), "failed MelPoW ⇒ no Ok", "with MelPoW failing Ok is reachable")
-    PUZ = "tmelcrypt::hash_keyed(Header::hash(try(SmtMapping::get($1.history, COIN.height))), StdcodeSerializeExt::stdcode(Option::unwrap(core::slice::<impl [T]>::get($3.inputs, 0))))"
+    # values only: `inputs.get(0).unwrap()`, `inputs.get(0).ok_or(..)?` and a copy of either are the same first input
+    al2 = {"stdcode::deserialize($3.data)": "DATA"}
+    for nm, short in (("coin_id", "COINID"), ("coin_data", "COIN")):
+        d = q.var_def_exprs(b, nm)
+        if len(d) == 1:
+            k2 = sig(q.strip_unwrap(d[0][1]))
+            al2[k2] = short
+            al2[abbrev(k2, {k: v for k, v in al2.items() if v == "COINID"})] = short
+    A2 = lambda e: abbrev(sig(q.strip_unwrap(e)), al2)
+    PUZ = "tmelcrypt::hash_keyed(Header::hash(SmtMapping::get($1.history, COIN.height)), StdcodeSerializeExt::stdcode(COINID))"
     for bi, e in pw:
-        got = [A(a) for a in e[2]]
-        want = ["try(Proof::from_bytes(DATA.1))", PUZ, "DATA.0"]
+        got = [A2(a) for a in e[2]]
+        want = ["Proof::from_bytes(DATA.1)", PUZ, "DATA.0"]
         r.check(got == want, "melpow/args", "proof_is_tip910(proof, hash_keyed(hash(history[coin.height]), stdcode(inputs[0])), difficulty)", "proof_is_tip910(%s)" % ", ".join(got), b.where(bi))
     # (g) reward bound
     ck = [(bi, e) for bi, e in calls if q.is_call(e, "check_dosc_total_output")]
@@ -148,7 +157,15 @@ def r2_reward_bound(ctx):
             want_prev = "try(SmtMapping::get($1.history, SubWithOverflow($1.height.0, 1).0)).dosc_speed"
             r.check(got[1] == want_prev, "reward/prev-speed", "previous speed = history[height−1].dosc_speed", "previous speed = %s" % got[1], b.where(bi))
             r.check(got[2] == "DATA.0", "reward/difficulty", "difficulty = decoded", "difficulty = %s" % got[2], b.where(bi))
-            r.check(got[3].startswith(TIP), "reward/tip910", "flag = proof_is_tip910(..)?", "flag = %s" % got[3][:80], b.where(bi))
+            # the flag is a function of this transaction's verification only.  Reported: a source outside the transaction (a static / global).
+            # Any other spelling that is not the direct `proof_is_tip910(..)?` (an enum era, a helper's constants) is not decided.
+            fe = cr[2][3]
+            if got[3].startswith(TIP):
+                r.ok("reward/tip910", "flag = proof_is_tip910(..)?", b.where(bi))
+            elif mir.contains(fe, lambda x: x[0] == "static"):
+                r.violation("reward/tip910", "flag = %s: the TIP-910 flag of the reward is read from state outside the transaction" % got[3][:80], b.where(bi))
+            else:
+                r.undecided("reward/tip910", "flag = %s is not the direct result of proof_is_tip910(..)?: whether it reflects this proof's verification is not decided" % got[3][:80], b.where(bi))
     for bi, e in q.call_exprs(b, "compute_doscmint_speed"):
         got = [A(a) for a in e[2]]
         r.check(got[0].startswith("try(applytx::proof_is_tip910(") and got[1:] == ["DATA.0", "$1.height", "COIN.height"], "speed/args",
@@ -226,7 +243,10 @@ def r5_speed_formula(ctx):
     b = ctx.body("melstf::state::applytx::compute_doscmint_speed", r)
     rets = q.ret_assignments(b)
     r.anchor(rets, "return")
-    flag = q.local_by_name(b, "is_tip910")
+    flag = 1                                              # the first parameter, whatever it is called
+    if b.locals[1]["ty"] != "bool":
+        r.undecided("formula/flag", "the TIP-910 flag of compute_doscmint_speed is a %s, not a bool: the two formulas are not decided" % b.locals[1]["ty"])
+        return
     for fl, mult in ((1, 100), (0, 1)):
         f = force(b, {}, {flag: C(fl)})
         v = q.resolve_phis(b, rets[0][2], f.reach)
